@@ -9,6 +9,7 @@ advertised f runs exactly B[f] with the new data and compares with the spec's tr
 creation."""
 import json
 
+import bindmap
 import c04
 import c06
 import semrun
@@ -58,7 +59,25 @@ def run(tier, seed, replay):
                 k["inel"] = []
                 k["paths"] = True
                 cases.append(k)
-    records = semrun.replay(cases, rnd, nvariants=1 if tier == "quick" else 2, chunk=120)
+    records = semrun.replay(cases, rnd, nvariants=1 if tier == "quick" else 2, chunk=120, want_extra=["bmtrace"])
+    # the collectors' own calls, as recorded by the hook, against spec/BindMap.tla (one trace per compiled group)
+    groups = {}
+    for rec in records:
+        vh = rec.get("vh")
+        if vh is not None and vh.get("bmtrace") is not None:
+            groups.setdefault(id(vh), (vh["bmtrace"], rec))
+        rec["vh"] = None
+    traces = [t for t, _ in groups.values()]
+    acc, rej, (st, tr) = bindmap.validate(traces)
+    ck.states += st
+    ck.transitions += tr
+    ck.traces += acc
+    ck.notes.append("BindMapTrace: %d collector traces (%d calls) validated against spec/BindMap.tla, %d accepted" % (
+        len(traces), sum(len(t) for t in traces), acc))
+    for x in rej:
+        t, rec = list(groups.values())[x["item"]]
+        ck.report({"sig": "collector-trace-rejected", "event": x["event"], "src": semrun.src_text(rec)},
+                  "BindMapTrace refuses the collector trace at call %d: %s" % (x["event_no"], bindmap.explain(t, x["event_no"])))
     applied = 0
     for rec in records:
         c = cases[rec["case"]]
